@@ -33,7 +33,7 @@ Qed.
 
 Section Scope.
   Variable pe : str -> option Conv.evr.
-  Variable ex : str -> str.
+  Variable ex : str -> option str.
 
   (* the domain of a master: one field per active object, in master order; a leaf value must survive its own converter *)
   Fixpoint pdom (m:obj) (v:pyval) : Prop :=
